@@ -621,6 +621,8 @@ class LoadRig:
 			def load(self, module_path: Any) -> Any:
 				rig.calls.append(f'load:{module_path.path}')
 				exc = rig.on_load.get(module_path.path)
+				if isinstance(exc, tuple):  # ('second', exc): only a repeated loader.load of that module raises
+					exc = exc[1] if rig.calls.count(f'load:{module_path.path}') >= 2 else None
 				if exc is not None:
 					raise exc
 				return _Module(module_path)
@@ -692,9 +694,8 @@ def load_cases(rng: random.Random, n_random: int) -> list[tuple[dict[str, Any], 
 	# the libraries load the module themselves: nothing is loaded a second time
 	rig = LoadRig(['lib'])
 	rig.imports['lib'] = ['main']
-	first = rig.load('main')
-	n_loads = rig.calls.count('load:main')
-	cases.append(({'kind': 'registered-by-libraries'}, ['modload\t0\t1\tok\tother B KeyError\tok\tok'], [outcome_of(first) if n_loads == 1 else f'loader.load(main) called {n_loads} times']))
+	rig.on_load['main'] = ('second', KeyError('loaded twice'))
+	cases.append(({'kind': 'registered-by-libraries'}, ['modload\t0\t1\tok\tother B KeyError\tok\tok'], [outcome_of(rig.load('main'))]))
 	return cases
 
 
